@@ -61,6 +61,16 @@ check("C05", "runtime monitoring: results of Simulator/Sampler/Analyzer/QuickSam
       "Trusted: the relation arithmetic in /verif/lwverif/checks/c05.py; the sampler's own distribution is the common "
       "reference (C04 decides its correctness); <=5 photons incl. heralds.", "DESIGN.md 4 C05")
 
+check("C06", "runtime monitoring: post-condition monitors on Source._build_statistics and on Sampler.probability_distribution "
+      "with a non-ideal source against an independent generative emission model + own permanent; derived monitors for "
+      "g2, HOM visibility, perfect settings and classical limit",
+      "Held on the (brightness, purity, indistinguishability, threshold, input, circuit, backend) cases explored: input "
+      "statistics are a normalised distribution over label partitions equal to the reference, output distributions "
+      "equal the mixture of convolved per-group boson-sampling distributions, g2 = 1 - purity, HOM visibility = "
+      "indistinguishability, perfect settings = ideal source, zero indistinguishability = classical particles.",
+      "Trusted: the generative model in /verif/lwverif/srcref.py (structure differs from the implementation's "
+      "coefficient table) and own permanent; <=4 injected photons, <=10 modes incl. loss.", "DESIGN.md 4 C06")
+
 NOT_APPLICABLE = []
 _EXPLICIT_NA = {}
 for line in open("/verif/properties.jsonl"):
